@@ -19,7 +19,11 @@ import (
 	"context"
 	"errors"
 	"fmt"
+	"go/ast"
+	"go/parser"
+	"go/token"
 	"os"
+	"path/filepath"
 	"sort"
 	"strings"
 	"sync"
@@ -302,15 +306,66 @@ func (s *scripted) reply(w int, d decision) string {
 	return s.observe(w, wk)
 }
 
+// arr shows the shared backing array (through the full-length slice header the script kept) and the TaskNum
+// counter of every peer still in it
 func (s *scripted) arr() string {
-	var l []string
+	var l, tn []string
+	seen := map[int]bool{}
+	var present []int
 	for _, t := range s.tasks {
-		l = append(l, fmt.Sprint(s.e.peerNo(t.Pid)))
+		pn := s.e.peerNo(t.Pid)
+		l = append(l, fmt.Sprint(pn))
+		if !seen[pn] {
+			seen[pn] = true
+			present = append(present, pn)
+		}
 	}
 	if len(l) == 0 {
 		return "-"
 	}
-	return strings.Join(l, ",")
+	sort.Ints(present)
+	for _, pn := range present {
+		for _, t := range s.tasks {
+			if s.e.peerNo(t.Pid) == pn {
+				tn = append(tn, fmt.Sprintf("%d:%d", pn, t.TaskNum))
+				break
+			}
+		}
+	}
+	return strings.Join(l, ",") + " tn=" + strings.Join(tn, ",")
+}
+
+// sharedSliceFact re-reads handler.go: is every per-height goroutine started with the one slice `jobS`?
+func sharedSliceFact() string {
+	dir := os.Getenv("VERIF_REPO")
+	if dir == "" {
+		dir = "/repo"
+	}
+	fset := token.NewFileSet()
+	f, err := parser.ParseFile(fset, filepath.Join(dir, "system/p2p/dht/protocol/download/handler.go"), nil, 0)
+	if err != nil {
+		return "unreadable"
+	}
+	res := "no-go-stmt"
+	ast.Inspect(f, func(n ast.Node) bool {
+		fd, ok := n.(*ast.FuncDecl)
+		if !ok || fd.Name.Name != "handleEventDownloadBlock" {
+			return true
+		}
+		ast.Inspect(fd, func(m ast.Node) bool {
+			g, ok := m.(*ast.GoStmt)
+			if !ok || len(g.Call.Args) != 2 {
+				return true
+			}
+			res = "0"
+			if id, ok := g.Call.Args[1].(*ast.Ident); ok && id.Name == "jobS" {
+				res = "1"
+			}
+			return true
+		})
+		return false
+	})
+	return res
 }
 
 // beh: what peer p does with a request for height h: -1 fail, otherwise the height of the block it returns
@@ -594,6 +649,7 @@ func main() {
 		replay(e, r, lines)
 		return
 	}
+	out.Op("fact shared-task-slice", sharedSliceFact())
 	// witness 1 (Lean: reask_witness): peers [A,B]; A fails height 1; the worker for height 2 starts after A was
 	// removed by the first worker and finds B twice in its view
 	replay(e, r, witnessReask)
